@@ -90,7 +90,6 @@ func TestC05MatrixECDSAResharing(t *testing.T) {
 	runMatrix(t, "C05", "C05", []string{"ecdsa-resharing"}, c05Kinds, nil, 8)
 }
 
-
 func filterCells(cells []faultCase) []faultCase {
 	flt := os.Getenv("VERIF_CELLFILTER") // development aid
 	if flt == "" {
